@@ -216,19 +216,19 @@ type world struct {
 	sched *scheduler.Scheduler
 	bag   []loop.Cmd
 
-	workers   []*fakeWorker
-	jobStarts []jobStart
-	merges     []string // "(segment,stage)" in delivery order of MsgMergeFinished
-	mergeUnits []stage.Unit
-	mergeNextBefore   int  // segmentCompleted+1 of the unit's stage when the last MsgMergeFinished arrived
-	mergeWasCompleted bool // the unit of the last MsgMergeFinished was already Completed when the message arrived
-	steps     int
-	ended     string // "", "quit:nil", "quit:err", "panic:<where>"
-	panicMsg  string
-	sent      int // BlockScopedData messages streamed by the walker
-	lsValid   bool
+	workers                  []*fakeWorker
+	jobStarts                []jobStart
+	merges                   []string // "(segment,stage)" in delivery order of MsgMergeFinished
+	mergeUnits               []stage.Unit
+	mergeNextBefore          int  // segmentCompleted+1 of the unit's stage when the last MsgMergeFinished arrived
+	mergeWasCompleted        bool // the unit of the last MsgMergeFinished was already Completed when the message arrived
+	steps                    int
+	ended                    string // "", "quit:nil", "quit:err", "panic:<where>"
+	panicMsg                 string
+	sent                     int // BlockScopedData messages streamed by the walker
+	lsValid                  bool
 	lsFulls, lsParts, lsOuts []string
-	initErr   string
+	initErr                  string
 }
 
 var sharedStats *metrics.Stats
